@@ -47,6 +47,7 @@ func init() {
 			{ID: "C20-R24", Title: "nodes are not built on the token before without a look at it", Floor: 1, Run: nodesAreNotBuiltOnTheTokenBefore},
 			{ID: "C20-R25", Title: "separators are required between the items of a list", Floor: 1, Run: separatorsAreRequired},
 			{ID: "C20-R26", Title: "the rollback restores what compilation moves (shared with C18-R18)", Floor: 1, Run: rollbackRestoresWhatCompilationMoves},
+			{ID: "C20-R27", Title: "a group that spans lines closes after a line break too", Floor: 1, Run: aGroupThatSpansLinesClosesAfterALineBreakToo},
 		},
 	})
 }
